@@ -378,7 +378,7 @@ pub fn c20(ctx: &CheckCtx) -> i32 {
          parameter with a non-null default; distinct by SDL hash.",
     );
     report.assume("implementer is read as: the strict subtypes of an interface, empty for object types (the schema's own doc text)");
-    let cases = ctx.cases(30_000, 300_000);
+    let cases = ctx.cases(100_000, 1_000_000);
     let res = search(ctx, "c20", cases, 32, 400, c20_case);
     report.absorb(res, &|b| {
         let doc = gen_schema(&mut Choices::new(b), &SchemaGenConfig { docs: true, ..SchemaGenConfig::default() });
@@ -625,7 +625,7 @@ pub fn c25(ctx: &CheckCtx) -> i32 {
          injected at a coordinate it documents covering (faults on edges with a required parameter are generated and counted \
          only). Non-trivial: fault on an inherited field or on a coercion; distinct by (schema, fault).",
     );
-    let cases = ctx.cases(6_000, 300_000);
+    let cases = ctx.cases(300_000, 3_000_000);
     let res = search(ctx, "c25", cases, 32, 400, c25_case);
     report.absorb(res, &|b| {
         let mut c = Choices::new(b);
